@@ -537,3 +537,15 @@ define void @f() personality i8* bitcast (i32 (...)* @__CxxFrameHandler3 to i8*)
   %7 = cleanuppad within none []
   cleanupret from %7 unwind to caller
 }
+;;; ATOM inst/alloca-addrspace
+define i32 @f(i32 %n) {
+  %a = alloca i32, addrspace(5)
+  %b = alloca [4 x i8], i32 %n, align 16, addrspace(5)
+  %c = alloca inalloca { i32, i8 }, align 8, addrspace(1)
+  store i32 1, i32 addrspace(5)* %a
+  %p = getelementptr [4 x i8], [4 x i8] addrspace(5)* %b, i32 0, i32 1
+  store i8 2, i8 addrspace(5)* %p
+  %q = addrspacecast { i32, i8 } addrspace(1)* %c to { i32, i8 }*
+  %v = load i32, i32 addrspace(5)* %a
+  ret i32 %v
+}
